@@ -548,6 +548,16 @@ structure Disk where
   writable : Bool := true
 deriving Repr, Inhabited
 
+/-- A registered `IoDriver` of the kind every shipped driver is: `read_inputs` fills the WHOLE
+input slice it is handed (its length tells the driver how much to deliver) from the field,
+`write_outputs` takes the whole output slice.  `seenIn` / `seenOut`: the slice lengths the driver
+was handed in the last cycle (`none` = not called). -/
+structure Driver where
+  field : List Nat := []
+  seenIn : Option Nat := none
+  seenOut : Option Nat := none
+deriving Repr, Inhabited
+
 structure Runtime where
   globalsMeta : List GlobalMeta := []
   fbs : List FbDef := []
@@ -561,6 +571,7 @@ structure Runtime where
   cycleCounter : Nat := 0
   fault : Option Err := none
   retain : Option RetainMgr := none
+  driver : Option Driver := none
 deriving Repr, Inhabited
 
 def findFb (fbs : List FbDef) (ty : Nat) : Option FbDef := fbs.find? (·.name == ty)
@@ -789,6 +800,40 @@ def loadRetainStore (rt : Runtime) (disk : Disk) : Runtime :=
 not dirty, nothing remembered. -/
 def setRetainStore (rt : Runtime) (autosave : Bool) : Runtime :=
   { rt with retain := some { autosave := autosave, dirty := false, lastSave := rt.time, lastSnapshot := none } }
+
+/-! ### Sized process images and drivers -/
+
+/-- `Vec::resize(n, 0)`. -/
+def vecResize (b : List Nat) (n : Nat) : List Nat := b.take n ++ List.replicate (n - b.length) 0
+
+/-- `IoInterface::resize(inputs, outputs, memory)`: the process image is sized once at start-up. -/
+def resizeIo (rt : Runtime) (ni nq nm : Nat) : Runtime :=
+  { rt with io := { rt.io with inputs := vecResize rt.io.inputs ni, outputs := vecResize rt.io.outputs nq,
+                               memory := vecResize rt.io.memory nm } }
+
+/-- `add_io_driver`. -/
+def addDriver (rt : Runtime) : Runtime := { rt with driver := some {} }
+
+/-- The field presents new input bytes (environment). -/
+def setField (rt : Runtime) (bytes : List Nat) : Runtime :=
+  match rt.driver with
+  | some d => { rt with driver := some { d with field := bytes } }
+  | none => rt
+
+/-- `driver.read_inputs(interface.inputs_mut())`: every byte of the slice is delivered. -/
+def driverReadInputs (rt : Runtime) : Runtime :=
+  match rt.driver with
+  | some d =>
+    let n := rt.io.inputs.length
+    { rt with io := { rt.io with inputs := (List.range n).map (fun i => d.field.getD i 0) },
+              driver := some { d with seenIn := some n } }
+  | none => rt
+
+/-- `driver.write_outputs(interface.outputs())`. -/
+def driverWriteOutputs (rt : Runtime) : Runtime :=
+  match rt.driver with
+  | some d => { rt with driver := some { d with seenOut := some rt.io.outputs.length } }
+  | none => rt
 
 /-! ### Cycle (`runtime/cycle.rs`, `io.rs`) -/
 
@@ -1025,9 +1070,14 @@ def sortReady : List TrustVerif.C06.Ready → List TrustVerif.C06.Ready
 
 /-- `Runtime::execute_cycle`.  Returns the new runtime, the new disk and the result. -/
 def cycle (rt : Runtime) (disk : Disk) : Runtime × Disk × Option Err :=
+  let rt := match rt.driver with
+    | some d => { rt with driver := some { d with seenIn := none, seenOut := none } }
+    | none => rt
   match rt.fault with
   | some _ => (rt, disk, some .resourceFaulted)
   | none =>
+    -- `read_cycle_inputs`: the drivers deliver first, then the bindings latch
+    let rt := driverReadInputs rt
     match readInputs rt.io rt.storage rt.io.bindings with
     | .error e => (applyFault rt e, disk, some e)
     | .ok s0 =>
@@ -1048,7 +1098,8 @@ def cycle (rt : Runtime) (disk : Disk) : Runtime × Disk × Option Err :=
             match writeOutputs s2 rt.io rt.io.bindings with
             | .error e => (applyFault rt2 e, disk, some e)
             | .ok io' =>
-              let rt3 := { rt2 with io := io' }
+              -- `write_cycle_outputs`: publish through the bindings, then hand the image to the drivers
+              let rt3 := driverWriteOutputs { rt2 with io := io' }
               -- `if self.retain.has_store() { mark_dirty(); maybe_save_retain_store()? }`
               match rt3.retain with
               | none => ({ rt3 with cycleCounter := rt3.cycleCounter + 1 }, disk, none)
